@@ -295,6 +295,16 @@ theorem fillInStroke_of_zero_width (st : Style) (r : RoundedRect) (h : st.width 
   intro p hp
   rw [areas_eq_of_zero_width st r h]; exact hp
 
+/-- A collapsed fill area (a stroke at least as wide as half the shape: zero width or height) contains
+no point, so it lies in the stroke area trivially. -/
+theorem fillInStroke_of_collapsed (st : Style) (r : RoundedRect) (hF : (r.fillArea st).InRange)
+    (hz : (r.fillArea st).rect.size.w = 0 ∨ (r.fillArea st).rect.size.h = 0) : FillInStroke st r := by
+  intro p hp
+  have hb := contains_imp_bbox _ hF hp
+  unfold boundingBox at hb
+  rw [Rect.contains_false_of_zero hz] at hb
+  cases hb
+
 /-- The colour the property text prescribes for point `p` (before clipping to the target). -/
 def styledExpected (st : Style) (r : RoundedRect) (p : Pt) : Option Color :=
   if (r.fillArea st).contains p = true then st.fill
